@@ -31,7 +31,7 @@ def _tool_hash():
         h.update(open(fn, "rb").read())
     # optional generator modules and the corpus files they read decide which programs exist: part of the key
     for fn in [os.path.join(pxvlib.VERIF, "tools", m + ".py") for m, _ in OPTIONAL_GENERATORS] + \
-            sorted(glob.glob(os.path.join(pxvlib.VERIF, "corpus", "C04", "apps*.jsonl"))):
+            sorted(glob.glob(os.path.join(pxvlib.VERIF, "corpus", "C0[3-8]", "*"))):
         if os.path.exists(fn):
             h.update(open(fn, "rb").read())
     return h.hexdigest()[:10]
